@@ -211,9 +211,10 @@ Qed.
   (* the root strategy cannot be removed through management *)
   Theorem strat_unset_root_refused st vs c a :
     has_params c a -> a_name a = Some [] ->
-    strat_unset_cmd st vs c = Ok st vs (RCtl 400 no_args (c_inface c)).
+    exists code, strat_unset_cmd st vs c = Ok st vs (RCtl code no_args (c_inface c)) /\ 400 <= code < 500.
   Proof.
-    intros Hp Hn. unfold strat_unset_cmd. rewrite (with_params_ok _ _ _ _ _ _ Hp), Hn. reflexivity.
+    intros Hp Hn. unfold strat_unset_cmd. rewrite (with_params_ok _ _ _ _ _ _ Hp), Hn. unfold ctl.
+    eexists. split; [reflexivity | vm_compute; split; congruence].
   Qed.
 
   (* ---------------- cs/config ---------------- *)
@@ -258,8 +259,9 @@ Qed.
 
   (* ------------------------------------------------------------------------------------------------
      refusals: bad parameters are answered 4xx (and by run_pure nothing changes) *)
-  Definition refused (o : outcome) (st : state) (vs : vers) (c : cmd) (code : N) : Prop :=
-    exists echo, o = Ok st vs (RCtl code echo (c_inface c)) /\ 400 <= code < 500.
+  (* answered with SOME status of the 4xx class (which one is not constrained by the property), state and versions untouched *)
+  Definition refused (o : outcome) (st : state) (vs : vers) (c : cmd) : Prop :=
+    exists code echo, o = Ok st vs (RCtl code echo (c_inface c)) /\ 400 <= code < 500.
 
   Definition no_params (c : cmd) : Prop := (length (c_name c) < plen + 3)%nat \/ c_pdec c = None.
   Lemma with_params_bad st vs c bad k : no_params c -> with_params st vs c bad k = ctl st vs c bad no_args.
@@ -271,96 +273,96 @@ Qed.
 
   (* missing or undecodable ControlParameters: every command verb answers 400 *)
   Theorem missing_params_refused (rib_to_fib : ribT -> name -> fibT -> fibT) (face_cleanup : N -> ribT -> fibT -> ribT * fibT) st vs c : no_params c ->
-    refused (rib_register rib_to_fib st vs c) st vs c 400 /\ refused (rib_unregister rib_to_fib st vs c) st vs c 400 /\
-    refused (fib_add st vs c) st vs c 400 /\ refused (fib_remove_cmd st vs c) st vs c 400 /\
-    refused (strat_set_cmd st vs c) st vs c 400 /\ refused (strat_unset_cmd st vs c) st vs c 400 /\
-    refused (cs_config st vs c) st vs c 400 /\ refused (face_create st vs c) st vs c 400 /\
-    refused (face_update st vs c) st vs c 400 /\ refused (face_destroy face_cleanup st vs c) st vs c 400.
+    refused (rib_register rib_to_fib st vs c) st vs c /\ refused (rib_unregister rib_to_fib st vs c) st vs c /\
+    refused (fib_add st vs c) st vs c /\ refused (fib_remove_cmd st vs c) st vs c /\
+    refused (strat_set_cmd st vs c) st vs c /\ refused (strat_unset_cmd st vs c) st vs c /\
+    refused (cs_config st vs c) st vs c /\ refused (face_create st vs c) st vs c /\
+    refused (face_update st vs c) st vs c /\ refused (face_destroy face_cleanup st vs c) st vs c.
   Proof.
     intros Hn. unfold rib_register, rib_unregister, fib_add, fib_remove_cmd, strat_set_cmd, strat_unset_cmd, cs_config,
       face_create, face_update, face_destroy.
     rewrite !(with_params_bad _ _ _ _ _ Hn). unfold ctl, refused.
-    repeat split; eexists; (split; [reflexivity | vm_compute; split; congruence]).
+    repeat split; eexists; eexists; (split; [reflexivity | vm_compute; split; congruence]).
   Qed.
 
   (* a Name is required by the RIB, FIB and strategy-choice commands *)
   Theorem missing_name_refused (rib_to_fib : ribT -> name -> fibT -> fibT) st vs c a : has_params c a -> a_name a = None ->
-    refused (rib_register rib_to_fib st vs c) st vs c 400 /\ refused (rib_unregister rib_to_fib st vs c) st vs c 400 /\
-    refused (fib_add st vs c) st vs c 400 /\ refused (fib_remove_cmd st vs c) st vs c 400 /\
-    refused (strat_set_cmd st vs c) st vs c 400 /\ refused (strat_unset_cmd st vs c) st vs c 400.
+    refused (rib_register rib_to_fib st vs c) st vs c /\ refused (rib_unregister rib_to_fib st vs c) st vs c /\
+    refused (fib_add st vs c) st vs c /\ refused (fib_remove_cmd st vs c) st vs c /\
+    refused (strat_set_cmd st vs c) st vs c /\ refused (strat_unset_cmd st vs c) st vs c.
   Proof.
     intros Hp Hn. unfold rib_register, rib_unregister, fib_add, fib_remove_cmd, strat_set_cmd, strat_unset_cmd.
     rewrite !(with_params_ok _ _ _ _ _ _ Hp), Hn. unfold ctl, refused.
-    repeat split; eexists; (split; [reflexivity | vm_compute; split; congruence]).
+    repeat split; eexists; eexists; (split; [reflexivity | vm_compute; split; congruence]).
   Qed.
 
   (* a face that does not exist *)
   Theorem unknown_face_refused (rib_to_fib : ribT -> name -> fibT -> fibT) st vs c a nm : has_params c a -> a_name a = Some nm ->
     explicit_face a = true -> face_exists st (acts_on c a) = false ->
-    refused (rib_register rib_to_fib st vs c) st vs c 410 /\ refused (fib_add st vs c) st vs c 410.
+    refused (rib_register rib_to_fib st vs c) st vs c /\ refused (fib_add st vs c) st vs c.
   Proof.
     intros Hp Hn He Hf. unfold rib_register, fib_add.
     rewrite !(with_params_ok _ _ _ _ _ _ Hp), Hn, target_face_acts_on, He, Hf. unfold ctl, refused.
-    split; eexists; (split; [reflexivity | vm_compute; split; congruence]).
+    split; eexists; eexists; (split; [reflexivity | vm_compute; split; congruence]).
   Qed.
   Theorem update_unknown_face_refused st vs c a : has_params c a -> face_get (s_faces st) (acts_on c a) = None ->
-    refused (face_update st vs c) st vs c 404.
+    refused (face_update st vs c) st vs c.
   Proof.
     intros Hp Hf. unfold face_update. rewrite (with_params_ok _ _ _ _ _ _ Hp), target_face_acts_on, Hf. unfold ctl, refused.
-    eexists; (split; [reflexivity | vm_compute; split; congruence]).
+    eexists; eexists; (split; [reflexivity | vm_compute; split; congruence]).
   Qed.
 
   (* a strategy name that is not under the strategy prefix, or lacks the strategy component *)
   Theorem strategy_without_component_refused st vs c a nm sn : has_params c a -> a_name a = Some nm ->
     a_strategy a = Some sn -> (is_prefix strategy_prefix sn = false \/ (length sn <= length strategy_prefix)%nat) ->
-    refused (strat_set_cmd st vs c) st vs c 404.
+    refused (strat_set_cmd st vs c) st vs c.
   Proof.
     intros Hp Hn Hs Hbad. unfold strat_set_cmd. rewrite (with_params_ok _ _ _ _ _ _ Hp), Hn, Hs.
     assert (E : negb (is_prefix strategy_prefix sn) || (length sn <=? length strategy_prefix)%nat = true).
     { destruct Hbad as [H|H]; [rewrite H; reflexivity | apply Nat.leb_le in H; rewrite H; apply orb_true_r]. }
-    rewrite E. unfold ctl, refused. eexists; (split; [reflexivity | vm_compute; split; congruence]).
+    rewrite E. unfold ctl, refused. eexists; eexists; (split; [reflexivity | vm_compute; split; congruence]).
   Qed.
   Theorem missing_strategy_refused st vs c a nm : has_params c a -> a_name a = Some nm -> a_strategy a = None ->
-    refused (strat_set_cmd st vs c) st vs c 400.
+    refused (strat_set_cmd st vs c) st vs c.
   Proof.
     intros Hp Hn Hs. unfold strat_set_cmd. rewrite (with_params_ok _ _ _ _ _ _ Hp), Hn, Hs. unfold ctl, refused.
-    eexists; (split; [reflexivity | vm_compute; split; congruence]).
+    eexists; eexists; (split; [reflexivity | vm_compute; split; congruence]).
   Qed.
 
   (* an MTU too small to carry a packet *)
   Theorem small_mtu_refused st vs c a f m : has_params c a -> face_get (s_faces st) (acts_on c a) = Some f ->
     (f_rscheme f =? sch_null) || (f_rscheme f =? sch_internal) = false ->
     a_mtu a = Some m -> m < k_FaceModule_update_min_mtu ->
-    refused (face_update st vs c) st vs c 409.
+    refused (face_update st vs c) st vs c.
   Proof.
     intros Hp Hf Hs Hm Hlt. unfold face_update. rewrite (with_params_ok _ _ _ _ _ _ Hp), target_face_acts_on, Hf, Hs.
     cbv beta zeta.
     assert (E : mtu_too_small k_FaceModule_update_min_mtu a = true) by (unfold mtu_too_small; rewrite Hm; apply N.ltb_lt; exact Hlt).
-    rewrite E, !orb_true_r. unfold ctl, refused. eexists; (split; [reflexivity | vm_compute; split; congruence]).
+    rewrite E, !orb_true_r. unfold ctl, refused. eexists; eexists; (split; [reflexivity | vm_compute; split; congruence]).
   Qed.
   Theorem small_mtu_create_refused st vs c a u m : has_params c a -> a_uri a = Some u -> u_canon u = true ->
     flags_mask_mismatch a = false -> a_mtu a = Some m -> m < k_FaceModule_create_min_mtu ->
-    refused (face_create st vs c) st vs c 406.
+    refused (face_create st vs c) st vs c.
   Proof.
     intros Hp Hu Hc Hfm Hm Hlt. unfold face_create. rewrite (with_params_ok _ _ _ _ _ _ Hp), Hu, Hc, Hfm. cbn [negb].
     assert (E : mtu_too_small k_FaceModule_create_min_mtu a = true) by (unfold mtu_too_small; rewrite Hm; apply N.ltb_lt; exact Hlt).
-    rewrite E. unfold ctl, refused. eexists; (split; [reflexivity | vm_compute; split; congruence]).
+    rewrite E. unfold ctl, refused. eexists; eexists; (split; [reflexivity | vm_compute; split; congruence]).
   Qed.
 
   (* out-of-range capacity / expiration *)
   Theorem huge_capacity_refused st vs c a cap : has_params c a -> isSome (a_flags a) = isSome (a_mask a) ->
     a_capacity a = Some cap -> k_ContentStoreModule_config_max_capacity < cap ->
-    refused (cs_config st vs c) st vs c 400.
+    refused (cs_config st vs c) st vs c.
   Proof.
     intros Hp Hfm Hc Hlt. unfold cs_config. rewrite (with_params_ok _ _ _ _ _ _ Hp), Hc.
     replace (xorb (isSome (a_flags a)) (isSome (a_mask a))) with false by (rewrite Hfm; destruct (isSome (a_mask a)); reflexivity).
-    apply N.ltb_lt in Hlt. rewrite Hlt. unfold ctl, refused. eexists; (split; [reflexivity | vm_compute; split; congruence]).
+    apply N.ltb_lt in Hlt. rewrite Hlt. unfold ctl, refused. eexists; eexists; (split; [reflexivity | vm_compute; split; congruence]).
   Qed.
   Theorem huge_expiration_refused (rib_to_fib : ribT -> name -> fibT -> fibT) st vs c a nm e : has_params c a -> a_name a = Some nm ->
     explicit_face a && negb (face_exists st (acts_on c a)) = false ->
     a_exp a = Some e -> k_RIBModule_register_max_expiration < e ->
-    refused (rib_register rib_to_fib st vs c) st vs c 400.
+    refused (rib_register rib_to_fib st vs c) st vs c.
   Proof.
     intros Hp Hn Hf He Hlt. unfold rib_register. rewrite (with_params_ok _ _ _ _ _ _ Hp), Hn, target_face_acts_on, Hf, He.
-    apply N.ltb_lt in Hlt. rewrite Hlt. unfold ctl, refused. eexists; (split; [reflexivity | vm_compute; split; congruence]).
+    apply N.ltb_lt in Hlt. rewrite Hlt. unfold ctl, refused. eexists; eexists; (split; [reflexivity | vm_compute; split; congruence]).
   Qed.
